@@ -9,7 +9,7 @@ META = {
                   "gensalt_sha_rn", "gensalt_{md5crypt,sha256crypt,sha512crypt,sunmd5,sha1crypt,nt,descrypt,bigcrypt,bsdicrypt,bcrypt*,scrypt,yescrypt,gost_yescrypt}_rn",
                   "yescrypt_encode_params_r", "encode64", "encode64_uint32", "BF_encode", "strcpy_or_abort"],
     "bounds": {
-        "quick": {"output_size": "-2..200 symbolic", "nrbytes": "0..24 symbolic (rbytes NULL also)", "count": "all 64-bit values", "two-run monotonicity": "sizes s<s' <= 264"},
+        "quick": {"output_size": "-2..160 symbolic", "nrbytes": "0..24 symbolic (rbytes NULL also)", "count": "all 64-bit values", "two-run monotonicity": "sizes s<s' <= 224"},
         "thorough": {"output_size": "-2..256 symbolic", "nrbytes": "0..70 symbolic (rbytes NULL also)", "count": "all 64-bit values", "two-run monotonicity": "sizes s<s' <= 320"},
     },
     "outside": ["output_size > 256 (every size test in the code compares against constants <= 192)",
@@ -19,7 +19,7 @@ META = {
                     "vsnprintf model (models/libc.c) implements %s %.*s %c %u %lu %zu as C11"],
     "trusted": [],
     "claim": "For every output_size in the stated range, every count, every nrbytes within the bound and every byte content, the SAT solver shows that the real crypt_gensalt_rn never writes at or beyond output_size, never reaches assert()/abort, returns the documented token/errno on failure, and that success is monotone in output_size with the smaller result a leading part of the larger; bounded model checking is the right level because the property is about specific sizes and counts that only an exhaustive decision over the integers finds.",
-    "note": "Bounds: output_size <= 200 (quick) / 256 (thorough), nrbytes <= 24 / 70; models/libc.c for vsnprintf/strspn/strcspn/strtoul/arc4random_buf; CBMC's C semantics.",
+    "note": "Bounds: output_size <= 160 (quick) / 256 (thorough), nrbytes <= 24 / 70; models/libc.c for vsnprintf/strspn/strcspn/strtoul/arc4random_buf; CBMC's C semantics.",
 }
 
 
@@ -30,7 +30,7 @@ LONG = ("yescrypt", "gost_yescrypt", "default", "scrypt", "sunmd5")
 def queries(tier, seed, build):
     qs = []
     small = 48
-    max_osize = 200 if tier == "quick" else 256
+    max_osize = 160 if tier == "quick" else 256
     max_rb = 24 if tier == "quick" else 70
     to = 900 if tier == "quick" else 3000
     for name, prefix, taglen, nrb in PREFIXES + [("default", None, 0, 16), ("unknown", "$zz$", 0, 0)]:
